@@ -17,6 +17,8 @@ def diameter(name, v, port):
     out = ["  %s:" % name, "    protocol: tcp"]
     if v == "name":
         out.append("    hostIPv4: localhost")          # a host NAME is legal for the `host` validator
+    elif v == "badname":
+        out.append("    hostIPv4: diameter.chf.invalid")   # ... also one that does not resolve
     elif v != "nohost":
         out.append("    hostIPv4: 127.0.0.1")
     out.append("    port: %s" % {"port0": "0", "port65536": "65536"}.get(v, port))
